@@ -236,7 +236,8 @@ def match_known(prop, vio, known):
     for ent in known:
         if ent.get('status') != 'known' or ent.get('property') != prop:
             continue
-        if ent.get('check') != vio['check']:
+        chk = ent.get('check')
+        if (vio['check'] not in chk) if isinstance(chk, list) else (chk != vio['check']):
             continue
         ok = True
         for k, want in ent.get('match', {}).items():
